@@ -69,7 +69,7 @@ fn main() {
     let cl: Vec<_> = if quick { cs.iter().filter(|c| c.edges.len() <= 2).cloned().collect() } else { cs.clone() };
     ctx.run_slice(Slice::new(format!("derivative-lax-entry[{} circuits]", cl.len()), cl.len() as u64, |i, loc| check_derivative::<B>(&cl[i as usize], true, loc)).heavy());
     let meta = Meta {
-        rule: "typing/routing: optics given by (|F(l)|, |R(l)|, |M(op)|) per label / operation class with labelled singleton forward and reverse images, crossed with every diagram of the universe; the optic image must have type interleave(FA,RA) -> interleave(FB,RB) and be isomorphic to the substitution l -> F(l)++R(l), op -> (fwd_op and rev_op sharing their residual nodes, R(A) bent to the source side); the adapted form must have type FA●RB -> FB●RA, the same hypergraph, and be monogamous when the input is; strict Optic and (on every third optic) lax Optic::map_arrow / map_adapted; composition and tensor preserved up to iso. Derivative: every monogamous acyclic circuit over {add, mul, neg, copy, discard, const 0/1/2} built by applying generators to ordered choices of open wires, every output order and every edge order; the adapted optic of the standard reverse-derivative lenses is evaluated on all x over {0,1,2,3,2^64-1} and dy in {unit vectors, all ones, a mixed vector} and must return (f(x), J^T dy), the Jacobian computed by forward-mode dual numbers".into(),
+        rule: "typing/routing: optics given by (|F(l)|, |R(l)|, |M(op)|) per label / operation class with labelled singleton forward and reverse images, crossed with every diagram of the universe; the optic image must have type interleave(FA,RA) -> interleave(FB,RB) and be isomorphic to the substitution l -> F(l)++R(l), op -> (fwd_op and rev_op sharing their residual nodes, R(A) bent to the source side); the adapted form must have type FA●RB -> FB●RA, the same hypergraph, and be monogamous when the input is; strict Optic and (on every third optic) lax Optic::map_arrow / map_adapted; composition and tensor preserved up to iso. Derivative: every monogamous acyclic circuit over {add, mul, neg, copy, discard, const 0/1/2} built by applying generators to ordered choices of open wires, every output order and every edge order; the adapted optic of the standard reverse-derivative lenses is evaluated on all x over {0,1,2,3,2^64-1} and dy in {unit vectors, all ones, a mixed vector} and must return (f(x), J^T dy), the Jacobian computed by forward-mode dual numbers Additionally all wirings with boundaries of up to three objects (where the block transposition and its inverse start to differ)".into(),
         bounds: "routing: lengths in {0,2} and {1,2} (quick, 127 optics) / {0,1,2} (729 optics); diagrams <=2 nodes, <=1-2 hyperedges; 3-node / 2-edge diagrams with 3 optics; circuits with <=2 inputs, <=3 generators (lax entry point in quick: <=2; thorough adds 1 input with 4 generators), <=3 outputs".into(),
         assumptions: vec!["ring Z/2^64 represented by u64 with wrapping arithmetic; inputs from 5 representatives".into(), "derivative is linear in dy, so unit vectors plus two more vectors are used for dy".into()],
         explanation: "explicit enumeration of programs (optics, circuits) x inputs on the real optic code; evaluation by the real strict::eval".into(),
